@@ -373,3 +373,7 @@ for pid in ('C04', 'C07', 'C16'):
 PROPS['C14']['outside'] = list(PROPS['C14'].get('outside', [])) + ['targets whose byte order differs from the host\'s (the checks compile and model the host target; a `to_ne_bytes` slip in the fallback encoder is invisible on little-endian)']
 PROPS['C15']['outside'] = list(PROPS['C15'].get('outside', [])) + ['stack depth: building the array on the stack before boxing it (e.g. `Box::new(arr![x; n])`) is observationally equal to in-place construction in both engines']
 PROPS['C19']['outside'] = list(PROPS['C19'].get('outside', [])) + ['const_default() is checked as the loop-free type-level recursion it is; an implementation with run-time loops over 1024-element blocks exceeds the unwinding bound / CBMC time limit and ends inconclusive (exit 2), neither passes nor is reported as a violation']
+
+# C01: the chunk / unchunk views are the users of the layout guarantee (fourth-round mutants filed under C01 lived there)
+PROPS['C01']['mir']['quick'].append(mrun(CHUNKS, nmax=3))
+PROPS['C01']['bounds'] += ' M also: chunks_from_slice(_mut) / slice_from_chunks(_mut) for all N and L (the views that rely on size_of::<GenericArray<T, N>>() == N * size_of::<T>()).'
